@@ -114,7 +114,7 @@ func c14Negotiate(c *Ctx) {
 				return fold.Nil{}
 			}
 			var out []rec
-			lm.Explore(f, func(x *fold.Machine) []fold.Val {
+			lps := lm.Explore(f, func(x *fold.Machine) []fold.Val {
 				lcur = cell{}
 				lcur.cfg = [4]int64{int64(pi & 1), int64((pi >> 1) & 1), wbits[pi>>2], wbits[x.Choose("c.cbits", 9)]}
 				lcur.accepted = x.Choose("accepted", 2) == 1
@@ -127,6 +127,11 @@ func c14Negotiate(c *Ctx) {
 			}, func(x *fold.Machine, p *fold.Path) {
 				out = append(out, rec{c: lcur, p: p, accF: fold.Show(x.Load(fold.Ref{O: lrecv, Path: []int{iAccepted}})), match: p.Chose("name-matches") == 1})
 			})
+			for _, p := range lps {
+				if p.Abort != "" || p.Panic {
+					out = append(out, rec{c: lcur, p: p})
+				}
+			}
 			parts[pi] = out
 		}()
 	}
